@@ -7,6 +7,8 @@ import (
 	"go/token"
 	"math/big"
 
+	"modernc.org/mathutil"
+
 	"golang.org/x/tools/go/ssa"
 )
 
@@ -331,6 +333,27 @@ func init() {
 	intrinsics[B+"And"] = bw(OpBvAnd)
 	intrinsics[B+"Or"] = bw(OpBvOr)
 	intrinsics[B+"Xor"] = bw(OpBvXor)
+
+	// modernc.org/mathutil.BinaryLog(n, mantissaBits): characteristic = floor(log2 n) exactly
+	// (ite chain over the bit length); the mantissa is the real value for a concrete n and an
+	// uninterpreted function of n in [0, 2^mantissaBits) otherwise (DESIGN App. C).
+	intrinsics["modernc.org/mathutil.BinaryLog"] = func(c *Ctx, fr *frame, fn *ssa.Function, a []value, pos token.Pos) value {
+		n := c.bigOf(a[0], pos)
+		bits, ok := concreteInt(a[1])
+		if !ok || bits < 0 || bits > 256 {
+			c.unsupported("BinaryLog with symbolic precision")
+		}
+		if !c.decideBool(Gt(n, CI(0)), pos) {
+			panic(tpanic("invalid argument of BinaryLog at " + c.posStr(pos)))
+		}
+		if n.Op == OpConst {
+			ch, m := mathutil.BinaryLog(n.Val, int(bits))
+			return tuple{CI(int64(ch)), newBigPtr(CInt(m))}
+		}
+		ch := Sub(bitLenTerm(n, c.h.maxBigBits), CI(1))
+		m := c.applyUFRange("binlog_mantissa", []*Term{n, CI(bits)}, bigZero, new(big.Int).Sub(Pow2(int(bits)), bigOne))
+		return tuple{ch, newBigPtr(m)}
+	}
 
 	// ---- uint256 ----
 	U := "(*github.com/holiman/uint256.Int)."
